@@ -429,6 +429,10 @@ def bracesSeq (w : Word) : Except Err (List Word) :=
   | none => .error .panic
   | some r => if r.length > limit then .error .limit else .ok r
 
+def isLimitErr {α : Type} : Except Err α → Bool
+  | .error .limit => true
+  | _ => false
+
 /-- The result of expanding a split word, as text. -/
 def expand (w : Word) : Except Err (List Bytes) :=
   match bracesSeq w with
